@@ -117,3 +117,120 @@ def report(ctx, rule):
     else:
         desc, what = problems[0]
         ctx.fail(rule, f, f.node, "selector model: %s: %s (%d disagreeing case(s))" % (desc, what, len(problems)), key="%s::selector-model" % SEL, input=desc)
+
+
+def compute_default_model(ctx):
+    """compute_default() interpreted for Selector and ListSelector with objects declared up front, default None and a
+    compute_default_fn whose result is an object already declared / one that is not (ListSelector: a list of both),
+    with and without check_on_set.
+
+    Specification: afterwards the default is the computed value and every computed item is one of the objects in force,
+    exactly once (a default outside the objects is a state the parameter itself would reject on re-assignment, and
+    one the generated schema's enum does not contain)."""
+    problems, n = [], 0
+    for q, check, computed_kind in itertools.product((SEL, LSEL), (True, False), ("known", "unknown")):
+        x, y, u = Obj("x"), Obj("y"), Obj("computed_unknown")
+        objects = [x, y]
+        item = x if computed_kind == "known" else u
+        computed = [x, item] if q == LSEL else item
+        if q == LSEL and computed_kind == "known":
+            computed = [x, y]
+        fn_obj = Obj("compute_default_fn", __callable__=True)
+        sel = Obj("selector", _objects=objects, names={}, allow_None=True, check_on_set=check, name="s", owner=None, default=None, compute_default_fn=fn_obj)
+        sel.attrs["__cls__"] = q
+
+        def hook(fn, args, kwargs):
+            if fn == "ListProxy" and args:
+                return args[0]
+            if fn == "self.compute_default_fn" and not args:
+                return computed
+            if fn == "isinstance" and len(args) == 2:
+                return isinstance(args[0], list)
+            return NotImplemented
+        f = ctx.hier.resolve(q, "compute_default")
+        it = Interp(ctx.hier, dyn=q, inline=lambda m: True, call_hook=hook, strict_self_calls=True)
+        try:
+            outs = it.run_all(f, {f.params[0]: sel})
+        except Unsupported as e:
+            raise AnalysisError("selector model: absint cannot interpret %s.compute_default: %s" % (q.rsplit(".", 1)[-1], e))
+        if len(outs) != 1 or outs[0].imprecise or outs[0].kind != "return":
+            raise AnalysisError("selector model: %s.compute_default is not interpretable precisely (%s)" % (q.rsplit(".", 1)[-1], outs[0].notes[:2] if outs else "no outcome"))
+        n += 1
+        desc = "%s(objects=[x, y], check_on_set=%s).compute_default() with a computed default %s" % (q.rsplit(".", 1)[-1], check, "among the objects" if computed_kind == "known" else "outside the objects")
+        if sel.attrs.get("default") is not computed:
+            problems.append((desc, "the default is %r afterwards, specification: the computed value" % (sel.attrs.get("default"),)))
+            continue
+        objs = sel.attrs["_objects"]
+        if not isinstance(objs, list):
+            raise AnalysisError("selector model: _objects is no longer known after %s" % desc)
+        for it_ in (computed if isinstance(computed, list) else [computed]):
+            cnt = len([e for e in objs if e is it_])
+            if cnt != 1:
+                problems.append((desc, "the computed %s is among the objects in force %d time(s), specification once: the parameter holds a default it would itself reject, "
+                                       "and the schema's enum does not contain it" % ("item %s" % it_.name if isinstance(computed, list) else "default", cnt)))
+        if [e for e in objs[:2]] != [x, y]:
+            problems.append((desc, "the declared objects change"))
+    return n, problems
+
+
+def report_compute_default(ctx, rule):
+    n, problems = compute_default_model(ctx)
+    f = ctx.hier.resolve(SEL, "compute_default")
+    ctx.abstract_cases += n
+    if not problems:
+        ctx.ok(rule, f, f.node, "selector model, compute_default: %d abstract cases: the computed default ends up among the objects in force, once" % n)
+    else:
+        desc, what = problems[0]
+        ctx.fail(rule, f, f.node, "selector model: %s: %s (%d disagreeing case(s))" % (desc, what, len(problems)), key="%s::compute-default-model" % SEL, input=desc)
+
+
+def objects_setter_model(ctx):
+    """The `objects` setter of Selector interpreted abstractly: the selector holds {'a': x, 'b': y}; it is given
+    (1) the same labelled objects in another order, (2) the very same mapping content again, (3) other labels for the
+    same objects, (4) a list, (5) an empty mapping.
+
+    Specification: afterwards `names` is the mapping given (its order) -- {} for a list -- and `_objects` lists exactly
+    the values given, in the order given: whatever is assigned replaces what was there, also when it compares equal
+    (dict equality ignores order; list view, names, items() and pop(index) all depend on the order)."""
+    problems, n = [], 0
+    f = ctx.hier.property_setter(SEL, "objects")
+    if f is None:
+        raise AnalysisError("selector model: the setter of Selector.objects was not found")
+    x, y = Obj("x"), Obj("y")
+    for kind in ("reordered", "same", "renamed", "list", "empty-mapping"):
+        sel = Obj("selector", _objects=[x, y], names={"a": x, "b": y}, name="s", owner=None)
+        given = {"reordered": {"b": y, "a": x}, "same": {"a": x, "b": y}, "renamed": {"p": x, "q": y}, "list": [y, x], "empty-mapping": {}}[kind]
+
+        def hook(fn, args, kwargs):
+            if fn == "isinstance" and len(args) == 2:
+                return isinstance(args[0], dict)
+            return NotImplemented
+        it = Interp(ctx.hier, dyn=SEL, inline=lambda m: False, call_hook=hook)
+        try:
+            outs = it.run_all(f, {f.params[0]: sel, f.params[1]: given})
+        except Unsupported as e:
+            raise AnalysisError("selector model: absint cannot interpret the objects setter: %s" % e)
+        if len(outs) != 1 or outs[0].imprecise or outs[0].kind != "return":
+            raise AnalysisError("selector model: the objects setter is not interpretable precisely (%s)" % (outs[0].notes[:2] if outs else "no outcome"))
+        n += 1
+        desc = "s.objects = %s on a selector holding {'a': x, 'b': y}" % {"reordered": "{'b': y, 'a': x}", "same": "{'a': x, 'b': y}", "renamed": "{'p': x, 'q': y}", "list": "[y, x]", "empty-mapping": "{}"}[kind]
+        want_names = list(given) if isinstance(given, dict) else []
+        want_objs = list(given.values()) if isinstance(given, dict) else list(given)
+        names, objs = sel.attrs.get("names"), sel.attrs.get("_objects")
+        if not isinstance(names, dict) or list(names) != want_names:
+            problems.append((desc, "names is %s afterwards, specification %s (in that order)" % (list(names) if isinstance(names, dict) else names, want_names)))
+        if not isinstance(objs, list) or len(objs) != len(want_objs) or any(a is not b for a, b in zip(objs, want_objs)):
+            problems.append((desc, "the objects in force are %s afterwards, specification %s: the replacement is dropped, so the list view, items() and pop(index) keep the old order while "
+                                   "watchers were told the new one" % ([getattr(o, "name", o) for o in objs] if isinstance(objs, list) else objs, [o.name for o in want_objs])))
+    return n, problems
+
+
+def report_objects_setter(ctx, rule):
+    n, problems = objects_setter_model(ctx)
+    f = ctx.hier.property_setter(SEL, "objects")
+    ctx.abstract_cases += n
+    if not problems:
+        ctx.ok(rule, f, f.node, "selector model, objects setter: %d abstract cases: names and the objects in force are exactly what was assigned, in that order" % n)
+    else:
+        desc, what = problems[0]
+        ctx.fail(rule, f, f.node, "selector model: %s: %s (%d disagreeing case(s))" % (desc, what, len(problems)), key="%s::objects-setter-model" % SEL, input=desc)
